@@ -1,6 +1,7 @@
 package main
 
 import (
+	"os"
 	"fmt"
 	"go/types"
 	"strings"
@@ -20,6 +21,7 @@ func (w *World) VerifyFunc(c *Contract, prop string) (*Unit, error) {
 	c.Used = true
 	u := NewUnit(w, funcDisplayName(fn), prop)
 	u.fn = fn
+	u.closure = c.Closure
 	u.safety = c.Flags["nopanic"]
 	u.overflow = c.Flags["overflow"]
 	f := u.newFrame(fn, c, 0)
@@ -169,6 +171,33 @@ func (w *World) UnitsFor(prop string) []*Unit {
 			continue
 		}
 		us = append(us, u)
+	}
+	// Modular closure: a unit of this property was verified against the CONTRACTS of the module
+	// functions it calls. Those contracts are proved from their bodies in the checks of the
+	// properties they are tagged with - but a change that breaks such a callee would then be
+	// reported only there. So every contract that a unit of this property applied at a call site
+	// is verified here as well, with all its clauses (transitively).
+	if os.Getenv("GOVC_NOCLOSURE") == "" {
+		for changed := true; changed; {
+			changed = false
+			for _, c := range w.CS.Contracts {
+				if c.Kind != "func" || !c.Used || c.Closure || c.HasProp(prop) || c.Flags["trusted"] {
+					continue
+				}
+				if fn := w.findFunction(c); fn == nil || fn.Blocks == nil {
+					continue
+				}
+				c.Closure = true
+				changed = true
+				u, err := w.VerifyFunc(c, prop)
+				if err != nil {
+					w.fail("%v", err)
+					continue
+				}
+				u.note("verified under " + prop + " because a unit of this property applies its contract at a call site (modular closure)")
+				us = append(us, u)
+			}
+		}
 	}
 	for _, l := range w.CS.Lemmas {
 		if l.Axiom || !hasProp(l.Props, prop) {
